@@ -388,16 +388,29 @@ def median(prog, ctx):
         ctx.undecided(R, 'Median', fn, 'expected one even/odd branch')
         return
     dn = fn.params[0]['name']
-    cond = show(ifs[0]['cond']).replace(' ', '').replace(dn + '.size()', 'N')
-    even_first = cond in ('N%2==0', '0==N%2', '!(N%2)', '(N%2)==0', 'N%2!=1')
-    odd_first = cond in ('N%2==1', 'N%2!=0', 'N%2', '1==N%2', '(N%2)!=0', '(N%2)==1')
+    # which branch handles even sizes: evaluate the branch condition (after the statements before it) for sizes 2..5
+    sxc = Symx(prog, fn)
+    stc = State({})
+    pre_stmts = fn.body['body'][:fn.body['body'].index(ifs[0])]
+    try:
+        for s_ in pre_stmts:
+            sxc.exec(s_, [stc])
+        ct = sxc.as_bool(sxc.sym(ifs[0]['cond'], stc))
+        nsym = [x_ for x_ in ct.free_symbols if str(x_) == 'len(%s)' % dn]
+        vals = [bool(ct.subs({x_: n_ for x_ in nsym})) for n_ in (2, 3, 4, 5)] if not (ct.free_symbols - set(nsym)) else None
+    except (Undecided, TypeError):
+        vals = None
+    even_first = vals == [True, False, True, False]
+    odd_first = vals == [False, True, False, True]
     if not (even_first or odd_first):
-        ctx.undecided(R, 'Median', fn, 'branch condition %s' % cond)
+        ctx.undecided(R, 'Median', fn, 'branch condition %s does not separate even from odd sizes' % show(ifs[0]['cond']))
         return
-    even_b, odd_b = (ifs[0]['then'], ifs[0]['else']) if even_first else (ifs[0]['else'], ifs[0]['then'])
+    rest_b = ifs[0]['else'] if ifs[0].get('else') is not None else \
+        {'k': 'Compound', 'body': fn.body['body'][fn.body['body'].index(ifs[0]) + 1:]}
+    even_b, odd_b = (ifs[0]['then'], rest_b) if even_first else (rest_b, ifs[0]['then'])
 
-    sxm = Symx(prog, fn)
-    stm = State({})
+    sxm = sxc
+    stm = stc            # the state after the statements before the branch (a cached size is known there)
     half = sxm.sym({'k': 'Bin', 'op': '/', 'ty': 'unsigned long', 'lhs': {'k': 'Call', 'kind': 'method', 'ty': 'unsigned long', 'args': [],
                     'callee': {'name': 'size', 'cls': 'std::vector', 'q': 'std::vector<double>::size', 'const': True},
                     'obj': {'k': 'Ref', 'name': dn, 'rk': 'param', 'id': fn.params[0]['id'], 'ty': 'std::vector<double>'}},
